@@ -174,7 +174,16 @@ def encode(s):
             raise AsmError('value longer than 65535')
         return c + len(b).to_bytes(2, 'big') + b
     if kd == 'wc':
-        key = value_bytes(ops[0])
+        if ops[0][0] == 'd':
+            # a decimal cache key is not described by the documents; the pinned compiler writes it as the minimal UNSIGNED
+            # big-endian number (d128 -> 80), unlike decimal push values - recorded here because the bytes of an accepted
+            # source are what script hashes commit to (standing decision, DESIGN 2.4)
+            n_ = ops[0][1]
+            if n_ < 0:
+                raise AsmError('negative decimal cache key')
+            key = n_.to_bytes(max(1, (n_.bit_length() + 7) // 8), 'big')
+        else:
+            key = value_bytes(ops[0])
         if len(key) > 255:
             raise AsmError('key longer than 255')
         return c + bytes([len(key)]) + key + u8(ops[1])
